@@ -75,7 +75,12 @@ class EvolventMachine(MachineMixin, RuleBasedStateMachine):
     def _setup(self, n, m, lo, hi):
         from iOpt.evolvent.evolvent import Evolvent
         self.n, self.m, self.lo, self.hi = n, m, list(lo), list(hi)
-        self.ev = Evolvent(np.array(lo, dtype=np.double), np.array(hi, dtype=np.double), n, m)
+        if all(float(v).is_integer() for v in list(lo) + list(hi)) and (n + m) % 2:
+            # integer-valued bounds written as Python ints (as the repository's own tests do)
+            self.ev = Evolvent([int(v) for v in lo], [int(v) for v in hi], n, m)
+            self.cls.add("int-typed-constructor-bounds")
+        else:
+            self.ev = Evolvent(np.array(lo, dtype=np.double), np.array(hi, dtype=np.double), n, m)
         self.nbounds = 0
         self.cls.add("N=%d" % n)
 
@@ -189,6 +194,30 @@ class EvolventMachine(MachineMixin, RuleBasedStateMachine):
         self.lo, self.hi = list(lo), list(hi)
         self.nbounds += 1
         self.check_returned("SetBounds: ")
+        self.last = "set_bounds"
+
+    @precondition(lambda self: self.ev is not None)
+    @rule(shift=st.sampled_from([-1.0, 1.0]))
+    def shift_bounds(self, shift):
+        # new bounds computed from the object's own bound arrays, one of which is handed back as it is:
+        # SetBounds(2*lower - upper, lower) moves the box down by its own size, SetBounds(upper, 2*upper - lower) up
+        self.trace.append(["shift_bounds", shift])
+        self.step(self._shift_bounds, shift)
+
+    def _shift_bounds(self, shift):
+        lo_arr, hi_arr = self.ev.lowerBoundOfFloatVariables, self.ev.upperBoundOfFloatVariables
+        lo = [2.0 * a - b for a, b in zip(self.lo, self.hi)] if shift < 0 else list(self.hi)
+        hi = list(self.lo) if shift < 0 else [2.0 * b - a for a, b in zip(self.lo, self.hi)]
+        if any(not (a < b) for a, b in zip(lo, hi)) or max(abs(v) for v in lo + hi) > 1e6:
+            return
+        if shift < 0:
+            self.ev.SetBounds(2.0 * np.asarray(lo_arr, dtype=np.double) - np.asarray(hi_arr, dtype=np.double), lo_arr)
+        else:
+            self.ev.SetBounds(hi_arr, 2.0 * np.asarray(hi_arr, dtype=np.double) - np.asarray(lo_arr, dtype=np.double))
+        self.lo, self.hi = lo, hi
+        self.nbounds += 1
+        self.cls.add("bounds-from-own-arrays")
+        self.check_returned("SetBounds (from the object's own arrays): ")
         self.last = "set_bounds"
 
     def teardown(self):
